@@ -30,6 +30,7 @@ def _dna_edge_iterator(meta_molecule, source):
     while True:
         neighbors = meta_molecule.neighbors(source)
         src_resid = meta_molecule.nodes[source]["resid"]
+        closing = None
         for next_node in neighbors:
             next_resid = meta_molecule.nodes[next_node]["resid"]
             diff = src_resid - next_resid
@@ -39,9 +40,12 @@ def _dna_edge_iterator(meta_molecule, source):
                 break
 
             if next_resid > src_resid and next_node == first_node:
-                yield (source, next_node)
-                return
+                closing = next_node
         else:
+            # the ring is only closed when there is no previous residue
+            # left, independent of the order of the neighbors
+            if closing is not None:
+                yield (source, closing)
             return
 
 def complement_dsDNA(meta_molecule):
@@ -65,12 +69,15 @@ def complement_dsDNA(meta_molecule):
         when the resname does not match any of the know base-pair
         names an error is raised.
     """
-    last_node = list(meta_molecule.nodes)[-1]
+    # the 3' end is the residue with the highest resid; node keys are only
+    # labels and need neither be ordered like the resids nor start at 0
+    resids = nx.get_node_attributes(meta_molecule, "resid")
+    last_node = max(resids, key=resids.get)
+    total = max(meta_molecule.nodes) + 1
     resname = BASE_LIBRARY[meta_molecule.nodes[last_node]["resname"]]
-    meta_molecule.add_monomer(last_node+1, resname, [])
+    meta_molecule.add_monomer(total, resname, [])
 
-    correspondance = {last_node: last_node+1}
-    total = last_node+1
+    correspondance = {last_node: total}
 
     pbar = tqdm(total=len(meta_molecule.nodes))
     for prev_node, next_node in _dna_edge_iterator(meta_molecule, source=last_node):
